@@ -640,26 +640,56 @@ def c16(ctx, rep):
     allowed_roots = {
         "anonymize_files": {"output_path", "dumpfile"}, "anonymize_file": {"out_file"}, "_mkdirs": {"file_path"},
     }
-    for cs, kind, path_t, writing in inv:
-        f = cs.owner
+    BASE_OK = {"anonymize_files": {"dumpfile", "pair[1]"}, "anonymize_file": {"out_file"}}
+
+    def _local_roots(term):
         roots = set()
-        if path_t is not None:
-            for s in _shallow(path_t):
+        if term is not None:
+            for s in _shallow(term):
                 if s[0] == "param":
                     roots.add(s[1])
                 if s[0] == "loopvar":
                     roots.add("pair[%s]" % ",".join(map(str, s[3])))
                 if s[0] in ("global", "const") and s[0] == "const" and isinstance(s[1], str) and s[1] not in ("", ".", "w", "r"):
                     roots.add("literal:%s" % s[1])
+        return roots
+
+    def _resolved(f, roots, depth=0):
+        """Roots of a path written inside a helper, followed through its call sites up to the entry points:
+        set of 'entry:root' labels, or {'?'} when a root cannot be followed."""
+        if f.name in BASE_OK:
+            return {"%s:%s" % (f.name, r) for r in roots}
+        if depth > 3:
+            return {"?"}
+        out = set()
+        callers = [cs2 for cs2 in G.sites if f in cs2.funcs()]
+        if not callers:
+            return {"?"}
+        for r in roots:
+            if r not in f.params:
+                out.add("?")
+                continue
+            for cs2 in callers:
+                skip = 1 if (f.cls is not None and not f.is_staticmethod and cs2.term[1][0] == "attr") else 0
+                b = bind_args(cs2.term, f, skip) or {}
+                a = b.get(r)
+                if a is None:
+                    out.add("?")
+                else:
+                    out |= _resolved(cs2.owner, _local_roots(a), depth + 1)
+        return out
+    for cs, kind, path_t, writing in inv:
+        f = cs.owner
+        roots = _local_roots(path_t)
         if writing:
             n_w += 1
             okr = False
-            if f.name == "anonymize_files":
-                okr = roots <= {"dumpfile", "pair[1]"} and bool(roots)
-            elif f.name == "anonymize_file":
-                okr = roots == {"out_file"}
-            elif f.name == "_mkdirs":
-                okr = roots == {"file_path"}
+            if f.name in BASE_OK:
+                okr = roots <= BASE_OK[f.name] and bool(roots)
+            else:
+                res = _resolved(f, roots)
+                okr = bool(res) and all(lbl.split(":", 1)[0] in BASE_OK and lbl.split(":", 1)[1] in BASE_OK[lbl.split(":", 1)[0]] for lbl in res)
+                roots = res
             rep.ob("C16.writes-only-output", "%s:%s" % (f.name, kind), okr, "write effect %s on path %s (roots %s); only output-side paths may be written" % (kind, show(path_t)[:80], sorted(roots)), cs.where, key="C16.writes-only-output|%s:%s" % (f.name, kind))
         else:
             rep.ob("C16.input-read-only", "%s:%s" % (f.name, kind), True, "read-only open of %s" % show(path_t)[:60], cs.where, nontrivial=False)
@@ -686,6 +716,9 @@ def c16(ctx, rep):
     from .ipmodel import IpModel
     _private_merge(ctx, IpModel(ctx), rep, "C16")
     stream_open_rule(ctx, rep, "C16")
+    # nothing on the file path of the work is remembered across runs (a memoised "directory exists" is wrong after the directory was removed)
+    from .checks_misc import stage_state_rule
+    stage_state_rule(ctx, rep, "C16", ["anonymize_files", "FileAnonymizer", "_mkdirs"])
     # single-file API: reads the named input, writes the named output, refuses only an output that is a directory
     inf, outf = ("param", f_file.mparams[1]), ("param", f_file.mparams[2])
     isdir_out = ("call", ("attr", ("attr", ("global", f_file.module.name, "os"), "path"), "isdir"), (outf,), ())
